@@ -40,6 +40,37 @@ def teardown_worker(k):
     shutil.rmtree(w, ignore_errors=True)
 
 
+ALL = [f"C{i:02d}" for i in range(1, 21)]
+
+
+def run_all(w, d, tier):
+    """harmless refactorings: every check must stay silent"""
+    out = {}
+    repo = f"{w}/repo"
+    patch = os.path.join(d, "patch.diff")
+    sh(["git", "-C", repo, "checkout", "--", "."])
+    r = sh(["git", "-C", repo, "apply", patch])
+    if r.returncode:
+        return {"apply": {"exit": -1, "violation": [], "error": r.stderr[-300:]}}
+    env = dict(os.environ, CGV_VERIF=f"{w}/verif", CGV_REPO=repo)
+    try:
+        for pid in ALL:
+            p = sh([f"{w}/verif/bin/check", pid, "--tier", tier], env=env)
+            v = [l for l in p.stdout.split("\n") if l.startswith("VIOLATION")]
+            res = {"exit": p.returncode, "violation": [x.replace(f"{w}/verif", "/verif") for x in v[:3]]}
+            if v:
+                rp = v[0].split("replay=")[1].split()[0]
+                if os.path.exists(rp):
+                    res["replay"] = json.dumps(json.load(open(rp)))[:700]
+            if p.returncode not in (0, 1):
+                res["tail"] = (p.stdout[-500:] + p.stderr[-800:])
+            out[pid] = res
+    finally:
+        sh(["git", "-C", repo, "checkout", "--", "."])
+        sh(["git", "-C", repo, "clean", "-fdq"])
+    return out
+
+
 def run_one(w, d, tier):
     meta_p = os.path.join(d, "meta.json")
     meta = json.load(open(meta_p)) if os.path.exists(meta_p) else {}
@@ -108,6 +139,22 @@ def main():
                 d = q.get_nowait()
             except queue.Empty:
                 break
+            mk = {}
+            try:
+                mk = json.load(open(os.path.join(d, "meta.json")))
+            except Exception:
+                pass
+            if mk.get("kind") == "harmless":
+                allres = run_all(w, d, tier)
+                with lock:
+                    mk.setdefault("results", {}).update({f"{k_}:{tier}": {x: y for x, y in r.items() if x not in ("tail", "replay")} for k_, r in allres.items()})
+                    mk["alarms"] = sorted(k_ for k_, r in allres.items() if r["exit"] != 0)
+                    json.dump(mk, open(os.path.join(d, "meta.json"), "w"), indent=1)
+                    print(f"{os.path.basename(d)} HARMLESS alarms={mk['alarms']}", flush=True)
+                    for k_, r in allres.items():
+                        if r["exit"] != 0:
+                            print("   ", k_, r.get("violation"), (r.get("replay") or r.get("tail") or "")[:600], flush=True)
+                continue
             pid, res = run_one(w, d, tier)
             with lock:
                 meta_p = os.path.join(d, "meta.json")
